@@ -47,8 +47,8 @@ class SameNamedTransform:
         from pyvc.concrete import Mismatch
         rng = np.random.default_rng(0)
         x = rng.standard_normal((6, 4)) + 1j * rng.standard_normal((6, 4))
-        if self.name in ("irfft", "irfft2", "irfftn", "hfft"):
-            pass
+        if self.name in ("rfft", "rfft2", "rfftn", "ihfft"):
+            x = np.ascontiguousarray(x.real)        # real-input transforms
         ref = getattr(scipy.fft, self.name)
         x0 = x.copy()
         a = got(x)
